@@ -327,6 +327,37 @@ def run(ctx):
             if q["pref_intervals_by_bloc"][b0][b1][shared] == sb:
                 expect(ctx, {"what": f"{mdl}: a bloc's intervals overlap in {shared} (supports {sa}, {sb})", "model": mdl, "params": q},
                        lambda q=q, mdl=mdl, ex2=ex2: bp.make(mdl, q, ex2), ValueError, "interval_overlap")
+        # three to five intervals: the overlapping pair may be ANY two of them (also two that do not include the first), the
+        # shared candidate with or without support; the same lists without the shared candidate are accepted
+        k = rnd.randint(3, 5)
+        ivs = [{f"c{j}_{t}": rnd.choice([1, 2, 0.5]) for t in range(rnd.randint(1, 2))} for j in range(k)]
+        a, b_ = sorted(rnd.sample(range(k), 2))
+        if rnd.random() < 0.6:
+            a, b_ = sorted(rnd.sample(range(1, k), 2))
+        props_k = [1.0 / k] * k
+        props_k[-1] = 1.0 - sum(props_k[:-1])
+        expect(ctx, {"what": f"combine_preference_intervals: {k} disjoint intervals"},
+               lambda ivs=ivs: comb([PI(dict(d)) for d in ivs], list(props_k)), None, "interval_overlap")
+        for sup in (1, 0):
+            bad = [dict(d) for d in ivs]
+            nm = next(iter(bad[a]))
+            bad[b_][nm] = sup
+            ctx.count("overlap_rows_not_involving_the_first_interval" if a > 0 else "overlap_rows_involving_the_first_interval")
+            expect(ctx, {"what": f"combine_preference_intervals: intervals {a + 1} and {b_ + 1} of {k} share {nm} (support {sup} in the later one)"},
+                   lambda bad=bad: comb([PI(dict(d)) for d in bad], list(props_k)), ValueError, "interval_overlap")
+        # the same through a name model with three blocs: a bloc's intervals for the 2nd and 3rd slate share a candidate
+        p3 = bp.gen_params(rnd, nblocs=3, max_slate=2, zero_support=False, extremes=False)
+        n3 = list(p3["bloc_voter_prop"])
+        q3 = copy.deepcopy(p3)
+        vb = rnd.choice(n3)
+        sh3 = q3["slate_to_candidates"][n3[2]][0]
+        q3["pref_intervals_by_bloc"][vb][n3[1]][sh3] = rnd.choice([1, 0.5])
+        mdl3 = rnd.choice(["name_PlackettLuce", "name_BradleyTerry", "name_Cumulative"])
+        ex3 = {"num_votes": 2} if mdl3 == "name_Cumulative" else {}
+        expect(ctx, {"what": f"{mdl3}: three blocs, valid parameters", "model": mdl3, "params": p3},
+               lambda: bp.make(mdl3, p3, ex3), None, "interval_overlap")
+        expect(ctx, {"what": f"{mdl3}: bloc {vb}'s intervals for the 2nd and 3rd slate share {sh3}", "model": mdl3, "params": q3},
+               lambda: bp.make(mdl3, q3, ex3), ValueError, "interval_overlap")
         expect(ctx, {"what": "combine_preference_intervals: disjoint candidate sets"},
                lambda: comb([PI({"A": 1, "B": 1}), PI({"C": 2})], [0.5, 0.5]), None, "interval_overlap")
         for d, ok in ((1e-6, False), (0.2, False), (1e-12, True)):
